@@ -271,7 +271,8 @@ int case_begin(const char* key, const char* fmt, ...) {
   }
   cur_hash = h;
   g_case_aligned = ((h >> 9) & 3) == 0;
-  g_case_place = g_case_aligned ? 0 : (((h >> 11) & 7) == 0 ? 1 : (((h >> 11) & 7) == 1 ? 2 : 0));
+  // 1/16 of the cases each: adjacent ascending, adjacent descending, page-end, page-start, far apart
+  g_case_place = g_case_aligned ? 0 : (((h >> 11) & 15) < 5 ? 1 + (int)((h >> 11) & 15) : 0);
   rng_seed(&cur_rng, G.seed ^ hash_bytes(G.prop, strlen(G.prop), 3), h);
   cur_note[0] = 0;
   cur_viols = 0;
@@ -292,7 +293,10 @@ void case_end(int nontrivial) {
   if (!in_case) harness_fail("case_end outside a case");
   n_eval++;
   if (g_case_aligned) cnt("cases_with_every_buffer_64B_aligned", 1);
-  if (g_case_place) cnt(g_case_place == 1 ? "cases_with_buffers_adjacent_ascending" : "cases_with_buffers_adjacent_descending", 1);
+  {
+    static const char* const pn[] = {0, "cases_with_buffers_adjacent_ascending", "cases_with_buffers_adjacent_descending", "cases_with_buffers_ending_at_a_guard_page", "cases_with_buffers_starting_after_a_guard_page", "cases_with_buffers_64GiB_apart"};
+    if (g_case_place) cnt(pn[g_case_place], 1);
+  }
   if (nontrivial) hset_add(&nontrivial_cases, cur_hash);
   cntf("key:%s", 1, cur_key);
   // write a sample record for the first case of each key (bounded)
@@ -454,6 +458,43 @@ void* gb_alloc(gbuf_t* g, size_t n, size_t align, size_t mis, size_t guard) {
     if (align < 64) align = 64;
   }
   g->arena = 0;
+  g->map_base = 0;
+  if (g_case_place >= 3) {
+    // own mapping: [inaccessible page][data pages][inaccessible page]; the user bytes are flush with the end (3) or the
+    // start (4) of the data pages, so that an over-read / under-read of even one byte faults in every build, also inside
+    // the assembly kernels no sanitizer instruments. Mode 5: ordinary layout, but mappings 64 GiB apart.
+    const size_t pg = 4096;
+    static uint64_t far_slot;
+    const size_t slack = g_case_place == 5 ? 2 * pg : align;  // canary bytes around the data where no guard page touches it
+    const size_t data = (n + slack + pg - 1) / pg * pg + (g_case_place == 5 ? 0 : 0);
+    const size_t len = data + 2 * pg;
+    void* hint = 0;
+    if (g_case_place == 5) hint = (void*)(uintptr_t)(0x100000000000ull + (__atomic_add_fetch(&far_slot, 1, __ATOMIC_RELAXED) % 448) * 0x1000000000ull);
+    uint8_t* m = mmap(hint, len, PROT_READ | PROT_WRITE, MAP_PRIVATE | MAP_ANONYMOUS | MAP_NORESERVE, -1, 0);
+    if (m != MAP_FAILED) {
+      mprotect(m, pg, PROT_NONE);
+      mprotect(m + pg + data, pg, PROT_NONE);
+      g->map_base = m;
+      g->map_len = len;
+      g->base = m + pg;
+      g->total = data;
+      g->guard = 0;
+      g->n = n;
+      uintptr_t u;
+      if (g_case_place == 3) u = ((uintptr_t)(g->base + data - n)) & ~(uintptr_t)(align - 1);
+      else if (g_case_place == 4) u = (uintptr_t)g->base;
+      else u = ((uintptr_t)g->base + pg + mis) & ~(uintptr_t)7;
+      g->p = (uint8_t*)u;
+      static uint64_t gbm_counter;
+      g->cseed = mix64((uint64_t)n * 131 + 7 + __atomic_add_fetch(&gbm_counter, 1, __ATOMIC_RELAXED) * 0x9E3779B97F4A7C15ull);
+      const size_t pre = (size_t)(g->p - g->base);
+      canary_fill(g->base, g->cseed, 0, pre);
+      canary_fill(g->base, g->cseed, pre + n, g->total);
+      VP_POISON(g->base, pre);
+      VP_POISON(g->p + n, g->total - pre - n);
+      return g->p;
+    }
+  }
   if (g_case_place) guard = 256;
   g->guard = guard;
   g->n = n;
@@ -495,7 +536,10 @@ int gb_check(gbuf_t* g, long* where) {
 void gb_free(gbuf_t* g) {
   if (!g->base) return;
   VP_UNPOISON(g->base, g->total);
-  if (g->arena) {
+  if (g->map_base) {
+    munmap(g->map_base, g->map_len);
+    g->map_base = 0;
+  } else if (g->arena) {
     pthread_mutex_lock(&arena_mu);
     arena_live--;
     pthread_mutex_unlock(&arena_mu);
@@ -605,4 +649,54 @@ long zvec_snap_cmp_free(snap_t* s, zvec_t* v) {
   long r = snap_cmp_free(s);
   zvec_poison(v, 1);
   return r;
+}
+
+// structure on top of a freshly drawn vector of n 64-bit words (one limb / one operand): 1/8 "scaled" (low 32 bits of
+// every word cleared: 32-bit data lifted to 64 bits), 1/8 a run of one value, 1/8 periodic (period 2, 3, 4 or 8), 1/16 all
+// zero, 3/16 sparse (zero run at the front / at the back / a single monomial); otherwise untouched. `bits`: the words are signed
+// integers below 2^bits in magnitude (64: any word). Every such domain used by the checks (|x| < 2^b) is closed under these.
+int structure_words(rng_t* r, uint64_t* w, uint64_t n, unsigned bits) {
+  const uint64_t t = rng_u64(r);
+  if (!n) return 0;
+  switch (t & 15) {
+    case 0: case 1:
+      // towards zero, so that no magnitude grows; pointless (everything would become 0) for domains below 2^34
+      if (bits < 34) return 0;
+      for (uint64_t i = 0; i < n; i++) {
+        const int64_t x = (int64_t)w[i];
+        w[i] = (uint64_t)(x - x % ((int64_t)1 << 32));
+      }
+      return 1;
+    case 2: case 3:
+      for (uint64_t i = 1; i < n; i++) w[i] = w[0];
+      return 2;
+    case 4: case 5: {
+      static const uint64_t PER[] = {2, 3, 4, 8};
+      const uint64_t per = PER[(t >> 8) & 3];
+      for (uint64_t i = per; i < n; i++) w[i] = w[i - per];
+      return 3;
+    }
+    case 6:
+      memset(w, 0, n * 8);
+      return 4;
+    case 7: {  // a run of zeros at the front (random length), data behind it
+      const uint64_t z = 1 + (t >> 12) % n;
+      memset(w, 0, (z < n ? z : n - 1) * 8);
+      return 5;
+    }
+    case 8: {  // a monomial: one non-zero coefficient
+      const uint64_t at = (t >> 12) % n;
+      const uint64_t v = w[at] ? w[at] : 1;
+      memset(w, 0, n * 8);
+      w[at] = v;
+      return 6;
+    }
+    case 9: {  // zeros at the back
+      const uint64_t z = 1 + (t >> 12) % n;
+      memset(w + (n - (z < n ? z : n - 1)), 0, (z < n ? z : n - 1) * 8);
+      return 7;
+    }
+    default:
+      return 0;
+  }
 }
